@@ -393,6 +393,18 @@ def R8_binders(ctx, rid, core):
         for n, e, g in scope.sites(core.hir_fn(rname)["body"], lambda n: H.kind(n) == "Call" and n.get("def") == A2S + "serializable_value_to_source", S.Env()):
             subst.add(innermost_ast_arm(g))
     want_pos = {"Expr::Identifier", "RecordKey::Shorthand"}
+    # a read position whose arm, in a printer that is handed the captured scope, never looks at that scope cannot substitute anything
+    for rname, rec in sorted(printer_fns(core).items()):
+        if not any(SCOPE_TY_ in t for t in rec.get("inputs", [])) or rec.get("body") is None:
+            continue
+        sc_names = {bn for p_, t_ in zip(rec["params"], rec["inputs"]) if SCOPE_TY_ in t_ for bn in H.pat_binds(p_)}
+        for enum_, var_ in (("ast::Expr", "Identifier"), ("ast::RecordKey", "Shorthand")):
+            for m_ in H.matches_on(rec["body"], enum_):
+                for a_ in m_["arms"]:
+                    if var_ in [H.last(v_) for v_ in H.pat_variants(a_["pat"])]:
+                        uses = any(H.path_local(y) in sc_names for y in H.walk(a_["body"]) if H.kind(y) == "Path") or (a_.get("guard") is not None and any(H.path_local(y) in sc_names for y in H.walk(a_["guard"]) if H.kind(y) == "Path"))
+                        ctx.inst(rid, "substitution@%s[%s]#reads-the-scope" % (rname.replace(CORE, ""), var_), uses,
+                                 "the %s arm %s the captured scope%s" % (var_, "consults" if uses else "never looks at", "" if uses else ": a captured value read here is emitted as a bare name - unbound, or somebody else's value, where the function is reloaded"), H.loc(a_["body"]))
     ctx.inst(rid, "substitution-positions", True if subst == want_pos else (False if (subst - want_pos - {None}) else None),
              "captured values are inlined at %s (want exactly the positions the evaluator reads: Identifier, record shorthand)" % sorted(map(str, subst)), H.loc(inl["body"]))
 
